@@ -68,6 +68,9 @@ type refUp struct {
 	Bools   map[string]*refBool
 	Maps    map[string]*refMap
 
+	CookieDC  bool // some relevant options map carries the undocumented key `cookiename`
+	UndocSkip bool // a relevant block carries the undocumented key `skipauthcompiledregex`
+
 	extraRaw interface{} // the extra_routes value in force
 	extraSrc string
 
@@ -185,6 +188,12 @@ func (rs *resolver) applyRoute(u *refUp, blk map[string]interface{}, src string)
 			u.Type = s
 		}
 	}
+	// Undocumented keys that happen to collide with untagged Go struct fields: the docs say nothing about
+	// them, so whatever they do to the cookie name / the compiled skip list is not judged (counted as an
+	// observation by the comparison).
+	if _, has := blk["skipauthcompiledregex"]; has {
+		u.UndocSkip = true
+	}
 	ov, ok := blk["options"]
 	if !ok || ov == nil {
 		return
@@ -193,6 +202,9 @@ func (rs *resolver) applyRoute(u *refUp, blk map[string]interface{}, src string)
 	if !isMap {
 		u.MustErr = "yaml-type-mismatch"
 		return
+	}
+	if _, has := opts["cookiename"]; has {
+		u.CookieDC = true
 	}
 	if src == "cluster" && rs.wholesale {
 		// hypothesis: everything the default block's options said is forgotten (even by `options: {}`)
@@ -401,9 +413,15 @@ func resolveDoc(text, cluster string, vars map[string]string, env envSpec, whole
 		if l, ok := u.extraRaw.([]interface{}); ok {
 			res.HasExtra = true
 			for _, e := range l {
+				if e == nil {
+					// `- ` with nothing after it: an entry that states nothing. Whether that is an error or a
+					// copy of the parent route is not documented; only the invariants (and "no panic") apply.
+					rs.note("null extra route entry")
+					continue
+				}
 				em, isMap := asMap(e)
 				if !isMap {
-					rs.note("extra route entry is not a mapping")
+					u.MustErr = "yaml-type-mismatch"
 					continue
 				}
 				x := u.clone()
@@ -435,6 +453,41 @@ func subst(s string, vars map[string]string) string {
 }
 
 var hostLike = regexp.MustCompile(`^([a-z][a-z0-9+.-]*://)?[A-Za-z0-9._-]+(:[0-9]+)?(/[A-Za-z0-9._/-]*)?$`)
+
+func hasSpaceOrControl(s string) bool {
+	for _, r := range s {
+		if r <= ' ' || r == 0x7f {
+			return true
+		}
+	}
+	return false
+}
+
+// routeHost reads a simple route's from/to the way the docs describe it - an optional scheme://, the
+// domain (optionally :port), an optional path - and returns the authority and the host inside it.
+func routeHost(s string) (authority, host string) {
+	rest := s
+	if i := strings.Index(s, "://"); i >= 0 {
+		rest = s[i+3:]
+	}
+	if i := strings.IndexAny(rest, "/?#"); i >= 0 {
+		rest = rest[:i]
+	}
+	authority = rest
+	if i := strings.LastIndex(rest, "@"); i >= 0 {
+		rest = rest[i+1:]
+	}
+	if strings.HasPrefix(rest, "[") {
+		if i := strings.Index(rest, "]"); i >= 0 {
+			return authority, rest[:i+1]
+		}
+		return authority, rest
+	}
+	if i := strings.LastIndex(rest, ":"); i >= 0 {
+		rest = rest[:i]
+	}
+	return authority, rest
+}
 
 // finish substitutes template variables, applies the deployment defaults and decides validity.
 func finish(u *refUp, vars map[string]string, env envSpec) {
@@ -525,8 +578,25 @@ func finish(u *refUp, vars map[string]string, env envSpec) {
 	}
 	switch u.Type {
 	case "", "simple":
-		if !hostLike.MatchString(u.From) || !hostLike.MatchString(u.To) {
-			u.Unknown = "simple route whose from/to is not a plain host or URL"
+		for _, v := range []string{u.From, u.To} {
+			if leftoverRe.MatchString(v) {
+				u.Unknown = "unprovided template variable in from/to"
+				continue
+			}
+			authority, host := routeHost(v)
+			switch {
+			case hasSpaceOrControl(authority):
+				u.MustErr = "route-host-invalid"
+			case strings.Trim(host, "[]") == "":
+				// "a valid route": a simple route matches the request's Host against `from` and proxies to the
+				// host named by `to`; a value without a host names neither
+				u.MustErr = "route-without-host"
+			case !hostLike.MatchString(v):
+				u.Unknown = "simple route whose from/to is not a plain host or URL"
+			}
+		}
+		if u.MustErr != "" {
+			return
 		}
 	case "rewrite":
 		if _, err := regexp.Compile(u.From); err != nil {
@@ -542,7 +612,10 @@ func finish(u *refUp, vars map[string]string, env envSpec) {
 		}
 	}
 	sk := u.Lists["skip_auth_regex"]
-	if sk.dc == "" || sk.dc == "unprovided-template-variable" {
+	if u.UndocSkip && sk.dc == "" {
+		sk.dc = "undocumented-key-skipauthcompiledregex"
+	}
+	if sk.dc == "" || sk.dc == "unprovided-template-variable" || sk.dc == "undocumented-key-skipauthcompiledregex" {
 		for _, p := range sk.v {
 			if _, err := regexp.Compile(p); err != nil {
 				u.MustErr = "skip-auth-regex-does-not-compile"
